@@ -83,6 +83,18 @@ func c09SpecialSeq(g *gen.G, which int) *c09Seq {
 		}
 		cb1 := mk("expr", "c09-cycle-b", y, nil, "cycC(«y»)", "cycA(«y»)")
 		return &c09Seq{changes: []*gen.Change{ca, cb1, ca}, roles: []string{"repeat-a", "feeder", "repeat-a"}, base: cb1, extra: []string{"cycA(%s)"}}
+	case 2:
+		// a later change searches, with several elisions and a repeated metavariable, a list that an earlier change
+		// generated (generated elements have no positions of their own)
+		c1 := mk("expr", "c09-generates-list", x, nil, "oldList(«x»)", "genList(a, «x», c, «x», d)")
+		c2 := mk("expr", "c09-searches-generated-list", []gen.MetaVar{{Name: "p", Kind: "expression"}, {Name: "q", Kind: "expression"}}, nil,
+			"genList(‹1:args›, «p», ‹2:args›, «q», ‹3:args›, «p», ‹4:args›)", "found(«p», «q»)")
+		if g.R.Intn(2) == 0 {
+			c1 = mk("expr", "c09-generates-list", nil, nil, "oldList()", "genList(a, b, c, b)")
+			c2 = mk("expr", "c09-searches-generated-list", []gen.MetaVar{{Name: "p", Kind: "expression"}, {Name: "q", Kind: "expression"}}, nil,
+				"genList(‹1:args›, «p», ‹2:args›, «q», ‹3:args›, «p»)", "found(«p», «q»)")
+		}
+		return &c09Seq{changes: []*gen.Change{c1, c2}, roles: []string{"generates-list", "searches-it"}, base: c1}
 	default:
 		// a later change is guarded by an import that only an earlier change adds (and by a package clause that only
 		// an earlier change makes true)
@@ -290,6 +302,8 @@ func runC09(ctx *core.Ctx, idx int) *core.Result {
 		seq = c09SpecialSeq(g, 0)
 	case 11:
 		seq = c09SpecialSeq(g, 1)
+	case 8:
+		seq = c09SpecialSeq(g, 2)
 	}
 	// files
 	nf := 3
